@@ -4186,6 +4186,16 @@ func clauseChanDir(n *node) (*node, *node, *node, reflect.SelectDir) {
 	return nod, assigned, ok, dir
 }
 
+// genSendValue returns the generator of the value sent on channel ch by a select clause: the
+// value is converted to the element type of the channel as in a send statement (an interpreted
+// interface type wraps it, an untyped constant takes the element type).
+func genSendValue(ch, v *node) func(*frame) reflect.Value {
+	if elem := ch.typ.val; elem != nil && !isEmptyInterface(elem) {
+		return genDestValue(elem, v)
+	}
+	return genValue(v)
+}
+
 func _select(n *node) {
 	nbClause := len(n.child)
 	chans := make([]*node, nbClause)
@@ -4216,7 +4226,11 @@ func _select(n *node) {
 			clause[i] = getExec(cl.child[1].start)
 			chans[i], assigned[i], ok[i], cases[i].Dir = clauseChanDir(c0)
 			chanValues[i] = genValue(chans[i])
-			if assigned[i] != nil {
+			switch {
+			case assigned[i] == nil:
+			case cases[i].Dir == reflect.SelectSend:
+				assignedValues[i] = genSendValue(chans[i], assigned[i])
+			default:
 				assignedValues[i] = genValue(assigned[i])
 			}
 			if ok[i] != nil {
@@ -4231,7 +4245,7 @@ func _select(n *node) {
 			// The comm clause as an empty body clause after channel send.
 			chanValues[i] = genValue(c0.child[0])
 			cases[i].Dir = reflect.SelectSend
-			assignedValues[i] = genValue(c0.child[1])
+			assignedValues[i] = genSendValue(c0.child[0], c0.child[1])
 			clause[i] = func(*frame) bltn { return next }
 		default:
 			// The comm clause has an empty body clause after a channel receive with assignment.
